@@ -169,7 +169,7 @@ class Run(object):
 
     # -- replay -------------------------------------------------------------------------------------------
     def replay_dir(self):
-        d = os.path.join(VERIF, "replays", self.prop)
+        d = os.path.join(VERIF, "replays" if self.repo == "/repo" else "replays_scratch", self.prop)
         os.makedirs(d, exist_ok=True)
         return d
 
@@ -296,8 +296,10 @@ class Run(object):
         if kn:
             ev["coverage"]["obligations"] = nobl - len(kn)
             ev["coverage"]["refuted_known_findings"] = [o.id for o in kn]
-        os.makedirs(os.path.join(VERIF, "evidence"), exist_ok=True)
-        evpath = os.path.join(VERIF, "evidence", "%s.json" % self.prop)
+        # evidence/ describes runs against /repo itself; runs against a scratch tree (--repo) write elsewhere
+        evdir = "evidence" if self.repo == "/repo" else "evidence_scratch"
+        os.makedirs(os.path.join(VERIF, evdir), exist_ok=True)
+        evpath = os.path.join(VERIF, evdir, "%s.json" % self.prop)
         tmp = evpath + ".tmp"
         with open(tmp, "w") as f:
             json.dump(ev, f, indent=1, default=str)
